@@ -28,6 +28,7 @@ Record gvar := mk_gvar {
   g_link : string;      (* "extern" | "static" | "local" *)
   g_type : string;
   g_nobj : Z;           (* number of compiled objects that contain a copy (8/12/16-bit multi-compilation, two libraries) *)
+  g_tus  : list string; (* archive member names of the translation units that contain it ("turbojpeg.c.o", ...) *)
   g_cls  : cls
 }.
 
@@ -49,6 +50,27 @@ Record escape_info := mk_esc {
   e_fn_byte_lvalues : Z;               (* lvalues of character type obtained by * or [] in e_fn *)
   e_callees : list (string * Z * Z)    (* callee receiving the alias: (name, byte lvalues, byte-pointer call arguments) in its body; -1 = body not found *)
 }.
+
+(* the binary side (tools/gen_GlobalsBin.py): data symbols of the built archives *)
+Inductive bsec := RO | RelRo | Data | Bss | Tdata | Tbss | OtherW.
+Record bsym := mk_bsym {
+  b_name : string;      (* symbol name up to the first '.' (function-local statics are name.N) *)
+  b_obj  : string;      (* archive member *)
+  b_sec  : bsec;
+  b_size : Z;
+  b_cnt  : Z
+}.
+
+Definition bsec_writable (s : bsec) : bool := match s with Data | Bss | OtherW => true | _ => false end.
+Definition bsec_tls (s : bsec) : bool := match s with Tdata | Tbss => true | _ => false end.
+
+(* why a non-const object is harmless, and what checked fact justifies it *)
+Inductive justification :=
+| J_ThreadLocal            (* AST: __thread ; binary: .tdata/.tbss *)
+| J_ConstAfterLoad_RO      (* AST: no write site, no non-const alias ; binary: the compiler placed it in a read-only section (or dropped it) *)
+| J_ConstAfterLoad_NoWrite (* AST: no write site, no non-const alias ; binary: writable section (needs load-time relocation or is a dummy) *)
+| J_DummyNeverAccessed     (* AST: dummy_ok use-site data ; binary: writable *)
+| J_None.
 
 Definition key (g : gvar) : string * string * string := (g_file g, g_fn g, g_name g).
 
